@@ -419,6 +419,69 @@ def verify(prog, fn, bb, sink, spec, _facts_override=None):
                 return True, how
             hows.append(how)
         return False, " / ".join(hows)
+    if k == "accumulated_read_count":
+        # the operand (or each bound of the range operand) is a counter c with c = 0 initially and c += n where n is the
+        # count returned by reading into buf[c..]: by the read contract n <= len - c, so c <= len is an inductive invariant
+        ops = []
+        for w in spec.get("which", ["arg1", "lhs"]):
+            o = sink_operand(sink, w) if sink is not None else None
+            if o is not None:
+                ops.append(o)
+                break
+        if not ops:
+            return False, "sink has no operand to bound"
+        st = fn.origin(ops[0])
+        bounds = st[-1][1][2] if st and st[-1][0] == "agg" and re.search(r"ops::range::Range", st[-1][1][1].get("adt", "") or "") else [ops[0]]
+        counters = set()
+        for b in bounds:
+            bs = fn.origin(b)
+            if bs and bs[-1][0] == "const" and const_int(bs[-1][1]) == 0:
+                continue
+            if not bs or bs[-1][0] != "multi" or bs[-1][2]:
+                return False, "operand %s is not a plain counter variable" % describe_origin(fn, bs)
+            counters.add(bs[-1][1])
+        if len(counters) != 1:
+            return False, "operand bounds are not one counter"
+        (c,) = tuple(counters)
+        nreads = 0
+        for (dbb, si, dk, payload) in fn.defs().get(c, []):
+            if fn.is_cleanup(dbb):
+                continue
+            if dk != "assign" or payload["p"][1]:
+                return False, "counter _%d is defined by something else than an assignment" % c
+            r = payload["r"]
+            if r[0] == "use" and r[1][0] == "k" and const_int(r[1][1]) == 0:
+                continue
+            ds = fn.origin(r[1]) if r[0] == "use" else [(r[0], r, [])]
+            last = ds[-1] if ds else None
+            if last is None or last[0] != "bin" or not last[1][1].startswith("Add"):
+                return False, "counter _%d is assigned something else than 0 or counter + n" % c
+            a, b = fn.origin(last[1][2]), fn.origin(last[1][3])
+            if a and a[-1][0] == "multi" and a[-1][1] == c:
+                other = b
+            elif b and b[-1][0] == "multi" and b[-1][1] == c:
+                other = a
+            else:
+                return False, "counter _%d is not incremented from itself" % c
+            if not origin_matches(fn, other, {"call": spec.get("count_call", r"Future>?::poll$"), "payload": "Ok"}):
+                return False, "the increment of counter _%d is not the count a read returned (%s)" % (c, describe_origin(fn, other))
+            nreads += 1
+        # every stream read of the function writes behind the counter: read(&mut buf[c..])
+        rds = [x for x in fn.calls() if re.search(spec.get("read_call", r"(AsyncReadExt|ReadExt|AsyncRead)::read$"), x.callee or "") or re.search(spec.get("read_call", r"(AsyncReadExt|ReadExt|AsyncRead)::read$"), x.decl or "")]
+        if not rds:
+            return False, "no stream read found"
+        for x in rds:
+            bs = fn.origin(x.args[1]) if len(x.args) > 1 else None
+            call = bs[-1][1] if bs and bs[-1][0] == "call" else None
+            okb = False
+            if call is not None and call.name in ("index_mut", "get_unchecked_mut") and len(call.args) > 1:
+                rs = fn.origin(call.args[1])
+                if rs and rs[-1][0] == "agg" and re.search(r"ops::range::RangeFrom$", rs[-1][1][1].get("adt", "") or ""):
+                    o = fn.origin(rs[-1][1][2][0])
+                    okb = bool(o) and o[-1][0] == "multi" and o[-1][1] == c
+            if not okb:
+                return False, "a stream read does not write into buf[counter..]"
+        return True, "counter _%d is 0 or the sum of counts of reads into buf[counter..] (%d increment(s)): counter <= buf.len() by the read contract" % (c, nreads)
     if k == "all":
         hows = []
         for s in spec["of"]:
